@@ -252,6 +252,8 @@ func runC13DcrHistory(seed int64, k int, fam string) (c12Case, []bool, []string)
 		g.fdo(DOp{Kind: "Delete", Cid: unk, Tok: g.tokOf(a, "current"), Why: "delete refused: a client id never issued"})
 		g.fdo(DOp{Kind: "UseSecret", Cid: a.ID, Secret: b.Secret, Basic: false, Why: "/token refused: another client's secret"})
 		g.fdo(DOp{Kind: "UseSecret", Cid: a.ID, Secret: g.unknownTok(), Basic: true, Why: "/token refused: wrong method and secret"})
+		g.fdo(DOp{Kind: "UseAt", Cid: a.ID, Secret: b.Secret, Ep: "introspect", Sm: "post", Why: "/introspect refused (or not served): another client's secret"})
+		g.fdo(DOp{Kind: "UseAt", Cid: a.ID, Secret: a.Tok, Ep: "revoke", Sm: "jwt", Why: "/revoke refused (or not served): the registration token as HMAC key"})
 		readA("A still as registered")
 	case "deleted":
 		g.fupdate(a, g.tokOf(a, "current"), c13dDocA2(), false, Hook{}, "an accepted update")
@@ -289,8 +291,8 @@ func runC13DcrHistory(seed int64, k int, fam string) (c12Case, []bool, []string)
 	return c12Case{Note: fmt.Sprintf("frame/%s#%d/%s/rotation=%v", fam, k, flavour, rotation), Flavour: flavour, Spec: srv, Ops: g.ops, Obs: g.obs, dist: g.dist}, g.changed, g.diffs
 }
 
-const c13dHeader = `From Verif Require Import Base Types Dcr.
-From Verif.Corr Require Import C12 C13Dcr.
+const c13dHeader = `From Verif Require Import Base Types Dcr DcrUse.
+From Verif.Corr Require Import C12 C12Use C13Dcr.
 Local Open Scope N_scope.
 `
 
@@ -336,7 +338,7 @@ func init() {
 			var names []string
 			for i, cs := range cases[k*per : hi] {
 				gi := k*per + i
-				fmt.Fprintf(&b, "(*CASE %d %s*)\nDefinition c_%d : fcase := mkFCase (\n%s)\n %s.\n", gi, cs.Note, gi, cs.coq(), cList(changed[gi], cB))
+				fmt.Fprintf(&b, "(*CASE %d %s*)\nDefinition c_%d : fcase := mkFCase (\n%s)\n %s.\n", gi, cs.Note, gi, cs.xcoq(), cList(changed[gi], cB))
 				names = append(names, fmt.Sprintf("c_%d", gi))
 			}
 			b.WriteString("Definition cases : list fcase := [" + strings.Join(names, "; ") + "].\n")
@@ -367,7 +369,7 @@ func init() {
 				var ops []string
 				for j, o := range cs.Ops {
 					if j < 6 {
-						ops = append(ops, o.Why+": "+truncate(o.coq(), 160)+"  ==>  "+truncate(cs.Obs[j].coq(), 120)+fmt.Sprintf("  store changed: %v", changed[i][j]))
+						ops = append(ops, o.Why+": "+truncate(o.xcoq(), 160)+"  ==>  "+truncate(cs.Obs[j].coq(), 120)+fmt.Sprintf("  store changed: %v", changed[i][j]))
 					}
 				}
 				ctx.Meta.Samples = append(ctx.Meta.Samples, map[string]any{"note": cs.Note, "first_ops": ops})
